@@ -434,6 +434,18 @@ func (g *Graph) Wrap(fr Frag) {
 	g.Connect(fr.Exit, en, nil)
 }
 
+// WrapImplicitEnd: like Wrap, but when the fragment ends in an activity the activity is the END of the process — it has
+// no outgoing sequence flow (BPMN: an implicit end; the token is consumed there, after the task's answer has been
+// handled like any other).
+func (g *Graph) WrapImplicitEnd(fr Frag) {
+	if !strings.HasSuffix(fr.Exit.Kind, "ask") && fr.Exit.Kind != "callActivity" {
+		g.Wrap(fr)
+		return
+	}
+	st := g.Add("startEvent", "start", "")
+	g.Connect(st, fr.Entry, nil)
+}
+
 func sortedKeys(m map[string]int) []string {
 	ks := make([]string, 0, len(m))
 	for k := range m {
